@@ -8,6 +8,7 @@ import (
 	"github.com/khirono/go-nl"
 
 	"github.com/free5gc/go-gtp5gnl"
+	"github.com/free5gc/go-upf/internal/forwarder/buffnetlink"
 	"github.com/free5gc/go-upf/internal/forwarder/perio"
 	"github.com/free5gc/go-upf/internal/logger"
 )
@@ -53,7 +54,8 @@ func zzGtp5g(linkIndex uint32) *Gtp5g {
 	return &Gtp5g{
 		client:   &gtp5gnl.Client{Client: &nl.Client{}, ID: zzFamilyID},
 		psClient: &gtp5gnl.Client{Client: &nl.Client{}, ID: zzFamilyID},
-		link:     &Gtp5gLink{link: &gtp5gnl.Link{Index: int(linkIndex)}},
+		link:     &Gtp5gLink{link: &gtp5gnl.Link{Index: int(linkIndex)}, conn: zzGTPConn()},
+		bsnl:     &buffnetlink.Server{},
 		ps:       zzPerio(),
 		log:      logger.FwderLog,
 	}
